@@ -87,6 +87,9 @@ type Mismatch struct {
 	Supply bool
 	// Admission: the daemon executed a conversion the model rejects, or the reverse.
 	Admission bool
+	// Repeat: the balance moved by a whole multiple (>= 2) of the expected
+	// change: what was expected once was applied several times.
+	Repeat bool
 }
 
 // Owners lists every property whose statement the disagreement contradicts.
@@ -112,6 +115,9 @@ func (m Mismatch) Owners() []string {
 		}
 		if m.Admission {
 			add("C13")
+		}
+		if m.Repeat {
+			add("C06")
 		}
 	}
 	return out
@@ -201,7 +207,12 @@ func compareBlock(db *sql.DB, l *model.Ledger, res *model.BlockResult, prev map[
 				// recorded as executed at this height for the address
 				cs = dbCauses(db, a, res.Height)
 			}
-			out = append(out, Mismatch{Height: res.Height, Aspect: "balance", Causes: cs,
+			rep := false
+			if exp, act := new(big.Int).Sub(want, was), new(big.Int).Sub(got, was); exp.Sign() != 0 && act.Sign() == exp.Sign() {
+				q, r := new(big.Int).QuoRem(act, exp, new(big.Int))
+				rep = r.Sign() == 0 && q.Cmp(big.NewInt(2)) >= 0 && q.Cmp(big.NewInt(64)) <= 0
+			}
+			out = append(out, Mismatch{Height: res.Height, Aspect: "balance", Causes: cs, Repeat: rep,
 				Detail: fmt.Sprintf("%s %s: ledger has %s, expected %s (before the block: %s; causes %v)", a.String(), world.TickerNames[t], got, want, was, cs)})
 		}
 	}
